@@ -13,7 +13,7 @@ from pgverif.monitors import tree as TM
 
 TIERS = {
     'quick': dict(shards=8, cases=40, steps=30),
-    'thorough': dict(shards=16, cases=400, steps=50),
+    'thorough': dict(shards=16, cases=250, steps=50),
 }
 RULE = ('case = one forest (1-3 roots, depth <= 3) mixing objects that override '
         '_on_change, objects that override only _on_bound, plain/typed objects '
